@@ -55,7 +55,15 @@ def step (os : OState) (line : String) : OState × String :=
     (os, m ++ "\t" ++ v)
   | "rr" :: _ =>
     -- C16 end to end: whatever bytes arrive as a request head, the client gets a well-formed HTTP response
-    if (fs.drop 1).head? = some "tunnelhist" then
+    if (fs.drop 1).head? = some "target" then
+      -- C08: the origin echoes the request-target it was asked for; it is the client's, byte for byte
+      let tgt := ((fs.drop 2).head?.getD "")
+      let want := "200:" ++ String.ofList (Rv.hex ("t=".toList ++ ((Rv.unhex tgt.toList).getD [])))
+      (os, want ++ "\t" ++ (if obs.startsWith "panic" then "bad:panic"
+        else if obs = want then "ok"
+        else if obs.startsWith "200:" then "bad:path-or-query-not-passed-through-unchanged"
+        else "ok"))   -- a target net/http itself refuses: no claim
+    else if (fs.drop 1).head? = some "tunnelhist" then
       -- C10: however many requests a tunnel carries, each gets the answer to its own request
       (os, "all-own-answers\t" ++ (if obs.startsWith "panic" then "bad:panic"
         else if obs = "all-own-answers" || obs = "connect-failed" || obs = "handshake-failed" then "ok"
